@@ -155,11 +155,17 @@ func c20Describe(p c20Plan, timeout, margin time.Duration) (*common.Fail, string
 				}
 				var s knxnet.Service
 				knxnet.Unpack(buf[:n], &s)
+				req, isReq := s.(*knxnet.DescriptionReq)
+				if !isReq {
+					// not a request: ephemeral ports are recycled between the parallel shards, so a stray frame of
+					// another process's (finished) case can land here - it says nothing about the call under test
+					continue
+				}
 				mu.Lock()
 				seen.n++
 				first := seen.n == 1
 				if first {
-					seen.req, _ = s.(*knxnet.DescriptionReq)
+					seen.req = req
 					seen.from, seen.at = from, time.Now()
 				}
 				mu.Unlock()
